@@ -78,6 +78,9 @@ def c07():
             # large inputs: header bytes + data-slice property on the real bytes
             for j, L in enumerate([65536 + ci, (1 << 20) - ci] if (thorough or ci < 4) else [40000 + ci]):
                 cmds.append(enc_cmd(be, k, m, hd, 2 - (j % 2), L, _seed_of(chk, 77 + j), 2))
+            # payloads above 1 MiB per fragment (checksums computed piecewise), CRC32
+            if li == 0 and ci in (0, 1, 6):
+                cmds.append(enc_cmd(be, k, m, hd, 2, k * ((1 << 20) + 2 + 4 * ci) + 1, _seed_of(chk, 99 + ci), 2))
         env = {} if leg is None else {"LIBERASURECODE_WRITE_LEGACY_CRC": leg}
         v, files = _run(chk, cmds, "C07-%d" % li, own, env=env, max_lines=600)
         tot = _add_counts(tot, v)
@@ -257,8 +260,9 @@ def c12():
         for (beI, kI, mI, hdI) in cfgs[:6 if not thorough else 12]:
             for (beJ, kJ, mJ, hdJ) in cfgs[:6 if not thorough else 12]:
                 i += 1
+                # the validating instance's own checksum type varies too (the verdict depends on the fragment, not on it)
                 cmds.append("cross %d %d %d %d %d %d %d %d %d %d %d %d %d %d" % (
-                    beI, kI, mI, hdI, WORD[beI], 2, beJ, kJ, mJ, hdJ, WORD[beJ], 1 + i % 2, 30 + i, _seed_of(chk, i)))
+                    beI, kI, mI, hdI, WORD[beI], 2 - (i // 2) % 2, beJ, kJ, mJ, hdJ, WORD[beJ], 1 + i % 2, 30 + i, _seed_of(chk, i)))
         for ci, (be, k, m, hd) in enumerate(cfgs):
             cmds.append(enc_cmd(be, k, m, hd, 1 + ci % 2, 20 + ci, _seed_of(chk, ci), 2))
         return cmds
@@ -286,6 +290,9 @@ def c20():
     for (be, k, m, hd) in big:
         i += 1
         cmds.append("sweep_force %d %d %d %d %d 2 %d %d %d" % (be, k, m, hd, WORD[be], 100 + i, _seed_of(chk, i), 6000 if thorough else 1200))
+    # payloads above 1 MiB per fragment (a checksum computed piecewise must still cover every byte): damage lands anywhere
+    cmds.append("sweep_force %d 2 2 2 %d 2 %d %d %d" % (BE_RS, WORD[BE_RS], 2 * ((1 << 20) + 4096) + 3, _seed_of(chk, 77), 24))
+    cmds.append("sweep_force %d 3 3 3 %d 2 %d %d %d" % (BE_XOR, WORD[BE_XOR], 3 * ((1 << 20) + 8192), _seed_of(chk, 78), 16))
     # stripes written under one meaning of the legacy-CRC switch and read under the other (run below under both values)
     tcmds = ["sweep_force %d %d %d %d %d 2 %d %d %d toggle" % (be, k, m, hd, WORD[be], 50 + j, _seed_of(chk, 300 + j), 400)
              for j, (be, k, m, hd) in enumerate([(BE_RS, 4, 2, 2), (BE_XOR, 5, 5, 3), (BE_RS, 3, 3, 3), (BE_XOR, 6, 6, 4)])]
